@@ -206,7 +206,7 @@ func (bp *BaseParser) readBufferBegin(lr *Loader) {
 	if bp.totalEntries-bp.readEntries == 0 {
 		bp.key = r.ReadStringP()
 	} else {
-		bp.key = lr.lastEntry.Key
+		bp.key = lr.lastKey
 	}
 }
 
